@@ -277,6 +277,14 @@ class Fn:
                 return ("local", l, proj)
             bb, idx, kind, payload = sd
             if kind == "call":
+                # `x?` : Try::branch(x) matched as Continue(v)  ==>  the Ok/Some payload of x
+                cn = payload.get("fnargs") or ""
+                if cn.endswith("as std::ops::Try>::branch") and len(proj) >= 2 and isinstance(proj[0], dict) \
+                        and proj[0].get("dc") == "Continue" and payload["args"]:
+                    which = "Some" if cn.startswith("<std::option::Option") else "Ok"
+                    proj = [{"dc": which}, {"f": 0, "n": "0"}] + proj[2:]
+                    cur = payload["args"][0]
+                    continue
                 return ("call", payload, proj, bb)
             rv = payload["rv"]
             if rv["k"] == "use":
